@@ -98,7 +98,7 @@ Ltac res_ok :=
   first [ left; exact Hr
         | destruct Hr as [<-|Hr]; [right; split; [discriminate | intros [Q|Q]; discriminate Q] | left; exact Hr] ].
 
-Ltac simp_lk := unfold lk; cbn [shs thr glast upd upd_th upd_sh mark_race set_glast set_gleak set_alock].
+Ltac simp_lk := unfold lk; cbn [shs thr glast upd upd_th upd_sh set_glast set_alock].
 
 Lemma step_effect t s s' : inv1 s -> step t s = Some s' ->
   exists th th', lget (thr s) t = Some th /\ thr s' = lset (thr s) t th' /\ effect s s' th th' /\ results_ok s th th'.
@@ -217,10 +217,7 @@ Proof.
       split; [|res_ok];
       apply (EfInsert _ _ _ _ (gk g) (gv g)); [unfold lk; rewrite (slookup_shard _ _ _ En); apply lookup_idx_none; [apply Hwf | exact Habs] | simp_lk; exact Hat | simp_lk; exact Hoth | reflexivity | reflexivity]
     end.
-  - (* clear an empty shard *)
-    split; [|res_ok].
-    apply (EfClear _ _ _ _ i); [rewrite Hpc; reflexivity | simp_lk; apply lift_clear; [exact Hso | eassumption] | reflexivity | reflexivity].
-  - (* clear a non-empty shard *)
+  - (* clear one shard *)
     split; [|res_ok].
     apply (EfClear _ _ _ _ i); [rewrite Hpc; reflexivity | simp_lk; apply lift_clear; [exact Hso | eassumption] | reflexivity | reflexivity].
   - (* evict_all_unpinned removes the next unpinned page *)
